@@ -303,6 +303,12 @@ fn params<C: Suite>(ctx: &mut Ctx) {
         ("empty", 3, 2, vec![]),
         ("duplicate", 4, 2, vec![ids[0], ids[1], ids[1], ids[3]]),
         ("duplicate-adjacent-threshold", 3, 3, vec![ids[2], ids[2], ids[0]]),
+        // both faults at once: too long, but exactly n distinct entries (the repeats would collapse in a map)
+        ("too-many-with-repeat", 3, 2, vec![ids[0], ids[1], ids[2], ids[2]]),
+        ("too-many-with-repeats", 3, 3, vec![ids[0], ids[1], ids[0], ids[2], ids[1]]),
+        ("too-many-repeat-first", 2, 2, vec![ids[3], ids[3], ids[0]]),
+        // and the mirror image: right length, too few distinct entries
+        ("all-equal", 3, 2, vec![ids[1], ids[1], ids[1]]),
     ] {
         if C::api_split(&key, n, t, IdentifierList::Custom(&list), &mut rng).is_ok() {
             ctx.viol("parameter-validation", &format!("identifier-list-{nm}"), json!({"n": n, "t": t}));
